@@ -110,6 +110,7 @@ func cutStream(c *mon.C, shapes []gen.Shape, side ref.Side, offsets []int, flavo
 					endErr = xport.ErrInjected
 				}
 				ch := xport.NewCutter(stream, p, off, endErr)
+				o.Wrap = drive.Wraps[(off+fl)%len(drive.Wraps)] // the kind of io.Reader the library is handed varies too
 				obs := drive.Run(ch, o)
 				// which frame is cut?
 				fi := 0
